@@ -176,7 +176,10 @@ def kani_run(hs, tag, jobs=16, harness_timeout=600, overall_timeout=None):
                 hr.toodee_functions.add(re.sub(r"::<.*$", "", fn) if False else fn)
             st = c.get("status", "")
             if c.get("category") == "cover":
-                hr.covers[c.get("description", "")] = st
+                # the same marker may appear at several source locations (early returns): reached once = reached
+                d_ = c.get("description", "")
+                if hr.covers.get(d_, "").lower() != "satisfied":
+                    hr.covers[d_] = st
                 continue
             if st == "Failure":
                 loc = c.get("location", {})
